@@ -30,6 +30,19 @@ HARNESSES += [
       '_dispatch_queue_wakeup_with_override_slow', '_dispatch_lane_wakeup', '_dispatch_lane_drain_barrier_waiter', '_dispatch_workloop_drain_barrier_waiter'], icall_only=['_dispatch_lane_wakeup'], nt=1, heap=1024, defines=['-DH_WAKEUP'], unwind=5, probes=PRR, timeout=300,
       note='real _dispatch_queue_wakeup: the +2 is taken when the caller did not bring it and consumed exactly once by the push or a release (shared with C01)'),
 ]
+PRT = dict(PRR); PRT.update({'OFF_vt_type': 'offsetof(struct dispatch_lane_vtable_s, _os_obj_vtable.do_type)', 'LANE_TYPE': 'DISPATCH_QUEUE_SERIAL_TYPE', 'DQF_MUTABLE': 'DQF_MUTABLE', 'OFF_tsd_queue': 'offsetof(struct dispatch_tsd, dispatch_queue_key)'})
+for _w, _u in (('A', '_dispatch_lane_set_target_queue'), ('B', '_dispatch_lane_legacy_set_target_queue')):
+    HARNESSES.append(H('S_retarget_active_refs_' + _w, 'h_retarget.c', [_u, '_dispatch_lane_legacy_set_target_queue', '__dispatch_tsd'], stubs=['_dispatch_bug', '_dispatch_bug_deprecated', 'libdispatch_tsd_init', '_dispatch_log', '_dispatch_unfair_lock_lock_slow', '_dispatch_unfair_lock_unlock_slow',
+        '_os_object_dispose', '_dispatch_introspection_target_queue_changed', '_dispatch_barrier_trysync_or_async_f', '_dispatch_lane_resume'], noglobal=['_dispatch_queue_attrs', '_dispatch_mgr_q'], icall_only=['_dispatch_lane_legacy_set_target_queue'], nt=1, heap=2048, defines=['-DH_' + _w], unwind=4, probes=PRT, timeout=300,
+        note='dispatch_set_target_queue on an active legacy queue, part %s: %s; reference counts of old and new target symbolic' % (_w, 'the new target is retained before the retarget is deferred' if _w == 'A' else 'the deferred barrier installs the target, releases the old one once, retains nothing')))
+# the +2 that dispatch_suspend takes and the last dispatch_resume gives back (shared with C06: same harness file, same lemma)
+import importlib.util as _iu
+_sp = _iu.spec_from_file_location('spec_C06_shared', os.path.join(os.path.dirname(__file__), '..', 'C06', 'spec.py')); _c06 = _iu.module_from_spec(_sp); _sp.loader.exec_module(_c06)
+for _h in _c06.HARNESSES:
+    if _h.name in ('S_suspend', 'S_resume'):
+        import copy as _copy
+        _g = _copy.copy(_h); _g.name = _h.name + '_refs'; _g.file = '../C06/h_susp.c'; _g.note = _h.note + ' (reference part: suspend takes +2 on the first suspension, the last resume hands it to the wakeup or releases it, exactly once)'
+        HARNESSES.append(_g)
 ASSUMPTIONS = ['tier H with real reference counting and disposal (_os_object_retain/release*, _dispatch_xref_dispose, _dispatch_dispose, _dispatch_lane_class_dispose) and the harness object table (bounds + liveness on every heap access: a use after free is an assertion failure)',
                'X = dispatch_release of the client reference, at most once per queue; the finalizer/context are set through dispatch_set_context / dispatch_set_finalizer_f, queue-specific data through dispatch_queue_set_specific',
                'object types other than queues: groups (C07 S_enter/S_notify/S_wake retain/release accounting), data (C13 lifetime harnesses); sources, semaphores and I/O channels are not covered here', 'histories are sequential (see C01 tier H)']
